@@ -76,7 +76,7 @@ structure Params where
   maxVals : Nat
   maxEntries : Nat
   hist : Nat
-  /-- 0: the chain's bond denom, 1: another valid denom, 2: invalid denom string -/
+  /-- 0: the chain's bond denom, 1: another valid denom, 2 and above: strings x/staking's denom validation refuses -/
   denom : Nat
   minComm : Int
   deriving DecidableEq, Repr, Inhabited
